@@ -1,4 +1,5 @@
 import MdkVerif.Model.Client
+import MdkVerif.Model.Handled
 /- helper lemmas about Model.Client: what each building block changes -/
 namespace MdkVerif.Client
 open MdkVerif
@@ -118,24 +119,6 @@ theorem notBetterResult_proj (c : Cl) (e : Ev) (h : Synced c.g) : proj (notBette
     · rfl
   · rfl
 
-/-! ### C07's notion of an event that was handled already (used by Props/C07.lean and Proofs/Insert.lean) -/
-
-/-- when is an event "already handled" past the dedup check, in terms of the client's own state -/
-def handledInner (c : Cl) (e : Ev) : Bool :=
-  match e.kind with
-  | .commit _ _ =>
-    -- an applied or superseded commit: it belongs to another epoch and does not beat what was applied
-    epochOf e.path != epochOf c.g.path && !isBetter c (epochOf e.path) e
-  | .leave => e.sender != c.id && c.g.consumed.contains e.cipher
-  | .app _ _ _ =>
-    (e.sender != c.id && c.g.consumed.contains e.cipher) ||
-    (e.sender == c.id && (match getRec c e.n with
-                          | some r => r.state == 1
-                          | none => false))
-
-def handled (c : Cl) (e : Ev) : Bool :=
-  (match getRec c e.n with
-   | some r => r.state == 3 || r.state == 4
-   | none => false) || (routes c e && handledInner c e)
+-- C07's predicates `handledInner` / `handled` / `known` are executable and live in Model/Handled.lean (the driver evaluates them)
 
 end MdkVerif.Client
